@@ -71,6 +71,10 @@ func BuildStructCodec(p CodecBuilder, registry CodecRegistry, typ reflect.Type, 
 		verifYield(VerifYieldStructField)
 		sf := typ.Field(i)
 
+		if !sf.IsExported() {
+			// Also covers names that do not start with a letter, like _x
+			continue
+		}
 		r, _ := utf8.DecodeRuneInString(sf.Name)
 		if unicode.IsLower(r) {
 			continue
